@@ -4,16 +4,31 @@ pub use methods::dispatch as sort;
 
 #[dispatch]
 mod methods {
-    use crate::CelValue;
+    use crate::{CelError, CelResult, CelValue};
 
-    fn sort(mut this: Vec<CelValue>) -> Vec<CelValue> {
+    fn sort(mut this: Vec<CelValue>) -> CelResult<Vec<CelValue>> {
+        // sort_by needs a total order: comparability is an equivalence relation, so checking
+        // every element against the first one is enough to establish it for all pairs
+        if let Some(first) = this.first() {
+            for other in this.iter() {
+                match first.clone().ord(other.clone()) {
+                    Ok(Some(_)) => {}
+                    _ => {
+                        return Err(CelError::invalid_op(
+                            "sort() requires mutually comparable elements",
+                        ))
+                    }
+                }
+            }
+        }
+
         this.sort_by(|a, b| {
             a.clone()
                 .ord(b.clone())
                 .unwrap_or(Some(std::cmp::Ordering::Less))
                 .unwrap_or(std::cmp::Ordering::Less)
         });
-        this
+        Ok(this)
     }
 
     mod internal {}
